@@ -12,7 +12,8 @@ CHECKS = {
              "from the grammar source with SLY's conflict resolution replicated; every (operator production, look-ahead) "
              "decision must equal the OData 5.1.1.14 table; productions must have operator-precedence shape; actions must "
              "put operator/left/right in the right fields; parentheses/unit productions pass values through; operator "
-             "tokens must have their keyword language. Finite and complete - no depth bound.",
+             "tokens must have their keyword language and may not be excluded by a look-behind where the grammar expects them; `ast.X(...)` is a new X holding "
+             "what it was given (a hand-written __new__ is evaluated). Finite and complete - no depth bound.",
         note="Trusted: SLY applies the tables as an LR driver; SLY's resolution rules as read from sly/yacc.py. "
              "Oracle: OData 4.01 Part 2 5.1.1.14.",
         ref="5 C05"),
@@ -46,7 +47,8 @@ CHECKS["C14"] = dict(
          "no naming position (Call.func, NamedParam.name, Lambda.identifier) reaches a substituting handler and lambda-bound "
          "variables are shielded; everything else is the generic rebuild, whose completeness (every contained node visited once, every "
          "field rebuilt from the visited child) is checked here as well as in C16; the table is parse(key)->parse(value) built "
-         "once with supplied-or-fresh lexer/parser. The bijection/inverse clause is implied only as far as exact substitution goes.",
+         "once with supplied-or-fresh lexer/parser; nodes compare structurally over all their fields (C16's schema rules), which the table lookup relies on. "
+         "The bijection/inverse clause is implied only as far as exact substitution goes.",
     note="Relies on C16 (generic transformer) and on dataclass equality/hash for table lookup. Known finding F23.",
     ref="5 C14")
 CHECKS["C16"] = dict(
@@ -55,7 +57,8 @@ CHECKS["C16"] = dict(
          "shapes are traversable; both generic_visit implementations call self.visit exactly once per contained node in field "
          "then list order; the transformer returns type(node)(**fields) with fresh lists; visit dispatches on 'visit_'+class "
          "name with generic_visit as default for all shipped visitors; node classes are frozen dataclasses with generated "
-         "equality; no function stores to/deletes from/mutates a node parameter or its lists.",
+         "equality over all fields, built as declared (no __new__ that hands back another object); a handler's exception leaves visit() unchanged (no try around "
+         "the handler call that re-dispatches); no function stores to/deletes from/mutates a node parameter or its lists.",
     note="Trusted: dataclasses semantics (frozen, eq). Alias tracking in the mutation scan is intra-procedural.",
     ref="5 C16")
 CHECKS["C17"] = dict(
